@@ -5,8 +5,62 @@ import json, subprocess, os
 CHECKS = {
  # id: (technique, level text, level note, design ref)
  "C01": ("property-based testing: generated games x profiles against an exhaustive pure-strategy best-response oracle (cross-checked with a sequence-form oracle); proptest shrinking",
-         "Exploration: every generated (game, profile) pair is evaluated by the library and by two independent oracles (path enumeration; exhaustive best response over all pure strategies, cross-checked against a sequence-form best response). A mismatch beyond 1e-9 relative is a violation. Evidence, not proof; the exhaustive sub-family of the thorough tier enumerates a small finite space completely.",
+         "Exploration: every generated (game, profile) pair is evaluated by the library and by two independent oracles (path enumeration; exhaustive best response over all pure strategies, cross-checked against a sequence-form best response). A mismatch beyond 1e-9 relative is a violation. Evidence, not proof.",
          "Trusted: the harness's oracles (two structurally different best-response computations that must agree on every small case), IEEE arithmetic within 1e-9 relative.", "3/C01"),
+ "C02": ("property-based testing: generated (game, T, threshold, threads) with vanilla Full solve; oracle = returned total bound >= true total regret from an independent best-response oracle; plus a hill-climbing (targeted PBT) search maximising regret/bound",
+         "Exploration: the theorem's inequality is checked on every generated configuration, including thresholds placed at/around the bound values of the run and 2..16 threads; a targeted search pushes the ratio true/bound towards 1 so that a weakened bound is caught.",
+         "Trusted: best-response oracle (cross-checked in C01); only the total bound is compared (the per-player inequality is not implied by the theorem).", "3/C02"),
+ "C03": ("property-based testing: generated games (incl. adversarial families) x presets x log-uniform T x threads; oracle = the two envelopes of the statement evaluated with an independent regret oracle",
+         "Exploration: the stated envelopes are validity predicates evaluated on every generated configuration; non-trivial cases are those where a do-nothing solver would fail the envelope.",
+         "Trusted: best-response oracle; D, N, A computed by the harness from its own tree (N cross-checked with num_infosets()).", "3/C03"),
+ "C04": ("property-based testing with seeded, replayable sampling (hook-seeded production samplers): per-case envelope with a majority-of-21 rerun rule, plus aggregate medians over a generated collection of games",
+         "Exploration of a probabilistic claim: every run is reproducible from (case, sampling seed); an exceedance is a violation only if it persists in a majority of 21 independent sampling seeds; aggregate convergence is decided on medians over a fixed generated collection.",
+         "Trusted: best-response oracle; decision rule error probabilities stated in DESIGN.md 3/C04.", "3/C04"),
+ "C05": ("property-based testing / robustness fuzzing over (game, method, parameter tuple incl. +-inf, budget, threshold, thread count): oracle = no panic, documented errors only, returned profile satisfies the validity predicate, bounds well-formed",
+         "Exploration: totality and well-formedness are validity predicates over the whole configuration space the constructor accepts; panics are caught and reported, hangs are reported as inconclusive by a watchdog.",
+         "Trusted: the validity predicate (shared with C13); hang detection is bounded-time observation.", "3/C05"),
+ "C06": ("differential property-based testing: k-thread versus 1-thread Full solve on generated wide games, repeated runs under injected yields and oversubscription, comparison gated by a reference-model conditioning guard",
+         "Exploration: the deterministic part of the parallel algorithm (how a traversal is cut into tasks, what state survives between iterations) is decided on every generated case; interleaving-dependent faults are sought statistically (repeats, yields, 16 concurrent pools).",
+         "Trusted: single-thread result as the reference; the harness does not own rayon's scheduler.", "3/C06"),
+ "C07": ("differential property-based testing with the sampling hook replacing every draw by a pure decision function: k-thread versus 1-thread Sampled/External solve, strategies, bounds and draw logs compared",
+         "Exploration: thread invariance under fixed sampling decisions, including non-proportional decision functions (first/last/uniform/scripted) so that every positive-probability history shape can occur; draw logs must be the same set with at most one draw per infoset and pass.",
+         "Trusted: the hook (additive, feature-gated); the harness does not own the scheduler.", "3/C07"),
+ "C08": ("model-based property-based testing: an independent reference implementation of discounted CFR (full, chance-sampled, external-sampled) on the harness's abstract tree, fed the same sampling decisions, compared with the library's strategies",
+         "Exploration against an executable specification: strategies must agree within 1e-6 at every infoset for generated (game, method, parameter tuple, T, decision function); preset constants and the default are compared with the documented tuples.",
+         "Trusted: the reference model (self-tested on the pinned example and against the CFR bound); comparisons stop at the first iteration whose regret-matching branch is within 1e-9 of a discontinuity.", "3/C08"),
+ "C09": ("property-based testing with a prefix-run oracle: solve(m,N,r) must equal bitwise the threshold-free run with budget t* computed from the bounds of all prefix runs; thresholds placed at, just below and just above every bound value",
+         "Exploration: single-threaded runs under hook-fixed decisions are bit-deterministic, so the oracle is exact equality with the prefix run; boundary thresholds are generated with next_up/next_down.",
+         "Trusted: determinism of single-threaded runs (re-checked in every case).", "3/C09"),
+ "C10": ("property-based testing of the categorical sampler with a mock generator (chosen variates around every cumulative boundary), draw-log conformance against the reference model, and fixed-seed chi-square / martingale tests of the production samplers",
+         "Exploration: (a) exact interval semantics of the sampler for generated weights and variates; (b) every recorded draw must be one the reference model expects, with the declared weights; (c) seeded distribution tests with alarm threshold p < 1e-10.",
+         "Trusted: the hook reports the weights the sampler was constructed with; reference model as in C08.", "3/C10"),
+ "C11": ("property-based testing with violation operators and label soup: an independent contract validator (MustAccept / MustReject(rules) / DontCare) as oracle; accepted trees are zipped against the harness's collapsed tree, evaluated and solved",
+         "Exploration of the accept/reject boundary: valid games, valid games with 1-2 injected violations at generated places, and random label soup; both directions are checked (accepted iff valid; error names a violated rule).",
+         "Trusted: the validator's reading of the documented contract; stated don't-care zones.", "3/C11"),
+ "C12": ("metamorphic property-based testing: a generated game versus a transformed presentation (renaming, chance rescaling, degenerate-node insertion/removal, payoff scaling/shift, player swap); evaluations and Full solves compared through the mapping",
+         "Exploration of metamorphic relations: evaluation relations are continuous and compared within 1e-9 relative; solver relations within 1e-12 where no rounding changes, else 1e-6 under the conditioning guard.",
+         "Trusted: the transformation code of the harness; conditioning guard.", "3/C12"),
+ "C13": ("stateful property-based testing: generated profile plus an operation sequence (truncate, re-import, permuted re-import, clone) with a model profile; named view compared with the harness's infoset table; ExactSizeIterator::len() checked before every next()",
+         "Exploration: completeness, consistency, round trip and iterator lengths at every prefix for generated games, profiles and histories.",
+         "Trusted: the harness's infoset table (computed from its own tree).", "3/C13"),
+ "C14": ("model-based property-based testing: generated named inputs with injected faults and duplicates against an independent model of the import rules; differential between from_named and from_named_eq",
+         "Exploration: Ok iff the model says valid, probabilities = weight/total within 2 ulp, error kind in the model's set of violated rules, both import paths identical.",
+         "Trusted: the model's reading of the documented rules (last write wins).", "3/C14"),
+ "C15": ("property-based testing of the production binary: the harness generates an abstract constant-sum game, serialises it as JSON DSL or Gambit .efg with all presentation freedoms, runs the program and independently evaluates the printed strategies",
+         "Exploration over files and option combinations; the oracle is an independent evaluation of the printed strategies on the abstract game with each player's own payoffs.",
+         "Trusted: the harness's serialisers (the ground truth is the abstract game, not a second parser).", "3/C15"),
+ "C16": ("differential property-based testing of the production binary against the library called directly with the parameters the options denote, across input routes/formats/destinations and JSON-versus-Gambit encodings (dyadic numbers, so arithmetic is exact)",
+         "Exploration over option values and routes: printed strategies must equal the library's result for the denoted parameters within 1e-9; clip decisions are checked against an independent regret evaluation.",
+         "Trusted: the harness's reading of the help text (option -> parameter mapping written out as a literal table).", "3/C16"),
+ "C17": ("property-based fuzzing near valid files: generated valid JSON/Gambit files plus one semantic corruption with a known outcome; oracle = non-zero exit, no result object, diagnostic of the expected category; accepted controls must pass C15's predicate",
+         "Exploration over corruption operators x positions x formats x routes; only corruptions whose invalidity follows from the README/DSL are generated, with must-accept controls on the tolerance boundary.",
+         "Trusted: category keywords are loose alternatives per documented category.", "3/C17"),
+ "C18": ("model-based property-based testing: per-infoset truncation model over generated profiles and thresholds placed at, just below and just above every probability; idempotence and validity checked",
+         "Exploration: support, proportional rescaling (4 ulp), validity when nothing exceeds the threshold, no change below the smallest positive probability, truncating twice equals once.",
+         "Trusted: the model; idempotence not asserted within 1e-9 relative of a probability.", "3/C18"),
+ "C19": ("property-based testing of algebraic laws: range [0,1], identity, positivity, bitwise symmetry, and panics exactly for p <= 0 and for profiles of different games",
+         "Exploration over generated games (incl. players without infosets), profile pairs (identical, near-identical, disjoint supports) and exponents.",
+         "Trusted: positivity demanded only for differences > 1e-6 and p <= 10.", "3/C19"),
 }
 
 def main():
